@@ -216,7 +216,8 @@ SaveLoad(g, fmt, withModel) ==
   \* (nodes without an asset - added by hand, or loaded without the model - are named by their id, which the file keeps)
   /\ gS' = [gS EXCEPT ![g] = Reloaded(IF withModel THEN MapH(gS[g], gNextH) ELSE Unbound(MapH(gS[g], gNextH)))]
   /\ gAct' = [op |-> "SaveLoad", g |-> g, fmt |-> fmt, withModel |-> withModel, off |-> gNextH, res |-> "ok"]
-  /\ gNextH' = gNextH + 2000 /\ UNCHANGED mvars
+  \* the loaded objects get the handles h + gNextH (all below 2 * gNextH): the next fresh handle must lie beyond them
+  /\ gNextH' = 2 * gNextH /\ UNCHANGED mvars
 \* in-place mutation of per-node data (C14 independence)
 TouchKinds == {"tags", "extras", "ttc", "label"}       \* slices may restrict the in-place mutations explored
 Touch(g, h, what) ==
